@@ -1,10 +1,10 @@
-(* Concrete witnesses: (1) `_refuted` lemmas - the faithful model violates the full statements of C13 / C19
-   on the input classes of DESIGN.md section 6 (F13a-g, F19a-b); each witness, replayed on the real code, is the
-   finding recorded under /verif/findings; (2) Examples that the premises of the `_partial` theorems are met
-   by a concrete non-trivial definition.  Everything here is closed and computed by vm_compute. *)
+(* Concrete witnesses, computed by vm_compute: (1) the inputs on which the pinned code violated C13 / C19
+   (DESIGN.md section 6, F13a-e, F13g, F19a-b) as positive Examples of the repaired model - each names the fix
+   commit and what the model answered before it; (2) the `_refuted` lemma for the defect that was not repaired
+   (F13f); (3) Examples that the theorems are not vacuous on a concrete non-trivial definition. *)
 From Coq Require Import List ZArith String Ascii Bool Arith.
 Import ListNotations.
-From BD.Loader Require Import Str Model Decode Proofs DecodeProofs.
+From BD.Loader Require Import Str Model Decode Proofs DecodeProofs LoadProofs.
 Open Scope string_scope.
 Open Scope list_scope.
 
@@ -26,61 +26,61 @@ Definition buildW := build cronW sigW tokW shW.
 Definition m (l : list (string * yv)) : yv := VMap (map (fun kv => (VStr (fst kv), snd kv)) l).
 Definition step1 := m [("name", VStr "s1"); ("command", VStr "echo hi")].
 
-(* ---- C13_no_panic: forall o d base e, outcome (build o d base e) <> Panic   -- FALSE ------------------- *)
-(* F13a: a key other than start / stop / restart in a schedule mapping *)
-Lemma no_panic_refuted_F13a :
-  exists d, no_nil d = true /\ outcome (buildW oYAML d [] []) = Panic /\ outcome (buildW oMeta d [] []) = Panic.
-Proof. exists (def_of (m [("schedule", m [("foo", VStr "* * * * *")]); ("steps", VList [step1])])). vm_compute. auto. Qed.
+Definition loadW (o : opts) (t : yv) := load_tree cronW sigW tokW shW o t [].
 
-(* F13b: a schedule string on which the cron library itself panics (TZ= without a following spec) *)
-Lemma no_panic_refuted_F13b :
-  exists d, no_nil d = true /\ d_schedule d = VStr "TZ=UTC" /\ outcome (buildW oYAML d [] []) = Panic /\ outcome (buildW oMeta d [] []) = Panic.
-Proof. exists (def_of (m [("schedule", VStr "TZ=UTC"); ("steps", VList [step1])])). vm_compute. auto. Qed.
-
-(* F13c: a null element in steps / functions / preconditions *)
-Lemma no_panic_refuted_F13c :
-  (exists d, d_steps d = [None] /\ outcome (buildW oYAML d [] []) = Panic) /\
-  (exists d, d_functions d = [None] /\ outcome (buildW oYAML d [] []) = Panic) /\
-  (exists d, d_preconditions d = [None] /\ outcome (buildW oYAML d [] []) = Panic) /\
-  (exists d sd, d_steps d = [Some sd] /\ sd_preconditions sd = [None] /\ outcome (buildW oYAML d [] []) = Panic).
-Proof.
-  split; [|split; [|split]].
-  - exists (def_of (m [("steps", VList [VNull])])). vm_compute. auto.
-  - exists (def_of (m [("functions", VList [VNull]); ("steps", VList [step1])])). vm_compute. auto.
-  - exists (def_of (m [("preconditions", VList [VNull]); ("steps", VList [step1])])). vm_compute. auto.
-  - eexists (def_of (m [("steps", VList [m [("name", VStr "s1"); ("command", VStr "echo hi"); ("preconditions", VList [VNull])]])])), _.
-    vm_compute. auto.
-Qed.
-
-(* F13g: a non-string key in a mapping decoded into a nested struct: the decode stage panics *)
-Lemma decode_no_panic_refuted_F13g :
-  decode (m [("steps", VList [VMap [(VStr "name", VStr "s1"); (VStr "command", VStr "echo"); (VInt 1, VStr "x")]])]) = Panic
-  /\ decode (m [("smtp", VMap [(VNull, VStr "x")])]) = Panic.
+(* ---- the witnesses of the former `_refuted` lemmas, now positive examples: the repaired code rejects them --- *)
+(* F13a: a key other than start / stop / restart in a schedule mapping.
+   Before fix c2912bd the model answered Panic (nil *[]string dereference, parser.go:101). *)
+Definition tree_F13a := m [("schedule", m [("foo", VStr "* * * * *")]); ("steps", VList [step1])].
+Example fixed_F13a :
+  no_nil (def_of tree_F13a) = true /\ outcome (buildW oYAML (def_of tree_F13a) [] []) = Err /\
+  outcome (buildW oMeta (def_of tree_F13a) [] []) = Err.
 Proof. vm_compute. auto. Qed.
 
-(* ---- C13 conditions: evaluating an accepted condition does not crash   -- FALSE (F13d) -------------------- *)
-Lemma conditions_refuted_F13d :
-  exists d g, outcome (buildW oYAML d [] []) = Ok g /\
-    outcome (evalConditions reW shW metW (g_preconditions g) []) = Panic.
+(* F13b: a schedule string on which the cron library itself panics (cronW "TZ=UTC" = CronPanic).
+   Before fix 519d0a6 the model answered Panic (the string reached cronParser.Parse). *)
+Definition tree_F13b := m [("schedule", VStr "TZ=UTC"); ("steps", VList [step1])].
+Example fixed_F13b :
+  cronW "TZ=UTC" = CronPanic /\ d_schedule (def_of tree_F13b) = VStr "TZ=UTC" /\
+  outcome (buildW oYAML (def_of tree_F13b) [] []) = Err /\ outcome (buildW oMeta (def_of tree_F13b) [] []) = Err.
+Proof. vm_compute. auto. Qed.
+
+(* F13c: a null element in steps / functions / preconditions.  Before fix c021988 decode let these through and
+   the model of build answered Panic (nil dereference in assertStepDef / assertFunctions / buildConditions);
+   now decode (assertNoNullElements) rejects the document. *)
+Example fixed_F13c :
+  outcome (loadW oYAML (m [("steps", VList [VNull])])) = Err /\
+  outcome (loadW oYAML (m [("functions", VList [VNull]); ("steps", VList [step1])])) = Err /\
+  outcome (loadW oYAML (m [("preconditions", VList [VNull]); ("steps", VList [step1])])) = Err /\
+  outcome (loadW oYAML (m [("steps", VList [m [("name", VStr "s1"); ("command", VStr "echo hi"); ("preconditions", VList [VNull])]])])) = Err.
+Proof. vm_compute. auto. Qed.
+
+(* F13g: a non-string key in a mapping decoded into a nested struct.  Before fix e67ca4a the model of decode
+   answered Panic (mapstructure's rawKey.(string)). *)
+Example fixed_F13g :
+  decode (m [("steps", VList [VMap [(VStr "name", VStr "s1"); (VStr "command", VStr "echo"); (VInt 1, VStr "x")]])]) = Err
+  /\ decode (m [("smtp", VMap [(VNull, VStr "x")])]) = Err.
+Proof. vm_compute. auto. Qed.
+
+(* F13d: an `expected:` with the re: prefix whose pattern does not compile.  Before fix 089471d evaluating the
+   accepted condition answered Panic (nil logger); now the pattern is dropped and the condition is not met. *)
+Example fixed_F13d :
+  exists d g, outcome (buildW oYAML d [] []) = Ok g /\ reW "re:[" = false /\
+    outcome (evalConditions reW shW metW (g_preconditions g) []) = Err.
 Proof.
   eexists (def_of (m [("preconditions", VList [m [("condition", VStr "`echo 1`"); ("expected", VStr "re:[")]]); ("steps", VList [step1])])), _.
-  vm_compute. split; reflexivity.
+  vm_compute. repeat split; reflexivity.
 Qed.
 
-(* ---- C13_wf: every accepted step has something to execute   -- FALSE (F13e) ------------------------------- *)
-Lemma executable_refuted_F13e :
-  (exists d g, outcome (buildW oYAML d [] []) = Ok g /\ forallb step_executable (all_steps g) = false
-               /\ exists sd, d_steps d = [Some sd] /\ sd_command sd = VList []) /\
-  (exists d g, outcome (buildW oYAML d [] []) = Ok g /\ forallb step_executable (all_steps g) = false
-               /\ exists sd, d_steps d = [Some sd] /\ sd_command sd = VList [VStr ""]) /\
-  (exists d g, outcome (buildW oYAML d [] []) = Ok g /\ forallb step_executable (all_steps g) = false
-               /\ exists sd, d_steps d = [Some sd] /\ sd_executor sd = VStr "").
-Proof.
-  split; [|split].
-  - eexists (def_of (m [("steps", VList [m [("name", VStr "s1"); ("command", VList [])]])])), _. vm_compute. eauto.
-  - eexists (def_of (m [("steps", VList [m [("name", VStr "s1"); ("command", VList [VStr ""])]])])), _. vm_compute. eauto.
-  - eexists (def_of (m [("steps", VList [m [("name", VStr "s1"); ("executor", VStr "")]])])), _. vm_compute. eauto.
-Qed.
+(* F13e: nothing to execute.  Before fix aac42fa the model accepted these four definitions with an empty Command,
+   CmdWithArgs and executor type; now buildStep rejects them. *)
+Example fixed_F13e :
+  outcome (loadW oYAML (m [("steps", VList [m [("name", VStr "s1"); ("command", VList [])]])])) = Err /\
+  outcome (loadW oYAML (m [("steps", VList [m [("name", VStr "s1"); ("command", VList [VStr ""])]])])) = Err /\
+  outcome (loadW oYAML (m [("steps", VList [m [("name", VStr "s1"); ("executor", VStr "")]])])) = Err /\
+  outcome (loadW oYAML (m [("functions", VList [m [("name", VStr "f"); ("params", VStr "x"); ("command", VStr "$x")]]);
+                           ("steps", VList [m [("name", VStr "s1"); ("call", m [("function", VStr "f"); ("args", m [("x", VStr "")])])]])])) = Err.
+Proof. vm_compute. auto. Qed.
 
 (* ---- C13_serialisable: the status of an accepted DAG marshals   -- FALSE (F13f) --------------------------- *)
 Lemma serialisable_refuted_F13f :
@@ -94,17 +94,19 @@ Proof.
         m [("type", VStr "http"); ("config", m [("timeout", VFloat FNaN "NaN" 0)])])]])])), _. vm_compute. auto.
 Qed.
 
-(* ---- C19_no_effects: o_noEval o = true -> effects (build o d base e) = []   -- FALSE ------------------------ *)
-(* F19a: a command substitution in logDir runs under noEval *)
-Lemma no_effects_refuted_F19a :
-  exists d, d_logDir d = "`touch /x`" /\ effects (buildW oYAML d [] []) = [EExec "touch /x"].
+(* ---- C19: the witnesses of the former `_refuted` lemmas ----------------------------------------------------------- *)
+(* F19a: a command substitution in logDir.  Before fix 4348d0d the model answered [EExec "touch /x"] under noEval. *)
+Example fixed_F19a :
+  exists d, d_logDir d = "`touch /x`" /\ effects (buildW oYAML d [] []) = [] /\
+            effects (buildW oLoad d [] []) = [EExec "touch /x"].
 Proof. exists (def_of (m [("logDir", VStr "`touch /x`"); ("steps", VList [step1])])). vm_compute. auto. Qed.
 
-(* F19b: default parameters are exported as $1..$n under noEval, even when only the metadata is loaded *)
-Lemma no_effects_refuted_F19b :
+(* F19b: default parameters.  Before fix a55d876 the model answered [ESetenv "1" "p1"; ESetenv "2" "p2"] under noEval,
+   even with metadataOnly. *)
+Example fixed_F19b :
   exists d, d_params d = "p1 p2" /\
-    effects (buildW oYAML d [] []) = [ESetenv "1" "p1"; ESetenv "2" "p2"] /\
-    effects (buildW oMeta d [] []) = [ESetenv "1" "p1"; ESetenv "2" "p2"].
+    effects (buildW oYAML d [] []) = [] /\ effects (buildW oMeta d [] []) = [] /\
+    effects (buildW oLoad d [] []) = [ESetenv "1" "p1"; ESetenv "2" "p2"].
 Proof. exists (def_of (m [("params", VStr "p1 p2"); ("steps", VList [step1])])). vm_compute. auto. Qed.
 
 (* ---- the premises of the _partial theorems are satisfiable by a non-trivial definition ----------------------- *)
@@ -127,17 +129,23 @@ Definition example_tree : yv :=
 Definition example_def := def_of example_tree.
 
 Example premises_satisfiable :
-  all_keys_strings example_tree = true /\ decode example_tree = Ok example_def /\
-  no_nil example_def = true /\ sched_safe cronW (d_schedule example_def) = true /\
-  def_executable example_def = true /\ def_config_clean example_def = true /\ def_regexps_ok reW example_def = true /\
+  decode example_tree = Ok example_def /\ no_nil example_def = true /\ def_config_clean example_def = true /\
   (exists g, outcome (buildW oYAML example_def [] []) = Ok g /\ List.length (all_steps g) = 7 /\
-             List.length (g_schedule g) = 2 /\ List.length (all_conditions g) = 2) /\
+             List.length (g_schedule g) = 2 /\ List.length (all_conditions g) = 2 /\ json_ok g = true) /\
   (exists g, outcome (buildW oLoad example_def [] []) = Ok g /\
              effects (buildW oLoad example_def [] []) = [EExec "echo a"; ESetenv "A" ""; ESetenv "B" "2"]).
-Proof. vm_compute. repeat split; eauto. Qed.
+Proof. vm_compute. repeat split; eauto 8. Qed.
 
-(* a definition without logDir substitution and without default parameters: the premises of the C19 theorem *)
-Example no_effects_premises_satisfiable :
-  tokW (effective_params oYAML example_def) = [] /\ logdir_commands [] example_def = [] /\
-  effects (buildW oYAML example_def [] []) = [] /\ effects (buildW oMeta example_def [] []) = [].
+(* a non-trivial definition WITH default parameters and a command substitution in logDir: loading it for viewing /
+   listing has no effect; loading it for execution has the effects of env, params and logDir, in this order *)
+Definition example_tree2 : yv :=
+  match example_tree with
+  | VMap l => VMap (l ++ [(VStr "params", VStr "p1 X=2"); (VStr "logDir", VStr "`echo /tmp/l`")])
+  | t => t
+  end.
+Example no_effects_example :
+  decode example_tree2 = Ok (def_of example_tree2) /\
+  effects (buildW oYAML (def_of example_tree2) [] []) = [] /\ effects (buildW oMeta (def_of example_tree2) [] []) = [] /\
+  effects (buildW oLoad (def_of example_tree2) [] []) =
+    [EExec "echo a"; ESetenv "A" ""; ESetenv "B" "2"; ESetenv "1" "p1"; ESetenv "2" "X=2"; EExec "echo /tmp/l"].
 Proof. vm_compute. auto. Qed.
